@@ -159,7 +159,7 @@ def sval_term(name, v):
         opt = lambda m: 'None' if m is None else f'(Some {J.message_term(m)})'
         return f'(SSegStat [{st}] {J.message_term(v.orig_submit_sm)} {opt(v.last_response)} {opt(v.last_receipt)})'
     if name == '_segment_store':
-        return f'(SPair {cz(int(v[0]))} {cz(int(v[1]))})'
+        return f'(SPair {core.cstr(str(v[0]))} {cz(int(v[1]))})'
     if name == '_delivery_segment_store':
         segs = '; '.join(f'("{k}", {core.cstr(t)})' for k, t in v[1].items())
         return f'(SSegText {stamp(v[0])} [{segs}])'
@@ -178,7 +178,7 @@ def sval_ser(name, v):
             out += [0] if m is None else [1] + J.message_ser(m)
         return out
     if name == '_segment_store':
-        return [2, int(v[0]), int(v[1])]
+        return [2, len(str(v[0]))] + J.codes(str(v[0])) + [int(v[1])]
     if name == '_delivery_segment_store':
         out = [4, stamp(v[0]), len(v[1])]
         for k, t in v[1].items():
